@@ -1949,3 +1949,56 @@ func ruleEntryDecodedIntoZero(c *Check, rule string) {
 	}
 	c.Floor(rule, n, 1, "calls of KV.Unmarshal")
 }
+
+// WHOLE-STREAM (C07-R3, C08-R5): LoadData hands the decoder everything the gzip
+// reader yields: the decompressed bytes are collected with io.Copy / io.ReadAll /
+// Buffer.ReadFrom whose source is the gzip reader itself, read until it reports
+// the end. A bounded or wrapped source (io.LimitReader, a fixed-size ReadFull)
+// that stops early without an error cuts the protobuf short: the snapshot fails
+// to decode or — when the cut falls on a field boundary — silently loses its
+// trailing DBIs.
+func ruleWholeStream(c *Check, rule string) {
+	name := "snapshot.LoadData"
+	fn, paths := c.walkFn(rule, name, WalkConfig{})
+	if paths == nil {
+		return
+	}
+	n, bad := 0, 0
+	for i := range paths {
+		p := &paths[i]
+		if p.End != "return" || !retIsNilErr(p) {
+			continue
+		}
+		n++
+		var gz string
+		for j := range p.Events {
+			e := &p.Events[j]
+			if e.Kind == "call" && strings.HasSuffix(e.Callee, "gzip.NewReader") {
+				gz = e.Res + "#0"
+			}
+		}
+		whole := false
+		for j := range p.Events {
+			e := &p.Events[j]
+			if e.Kind != "call" || gz == "" {
+				continue
+			}
+			switch e.Callee {
+			case "io.Copy", "io.CopyBuffer":
+				whole = whole || len(e.Args) >= 2 && e.Args[1] == gz
+			case "io.ReadAll", "io/ioutil.ReadAll":
+				whole = whole || len(e.Args) == 1 && e.Args[0] == gz
+			case "(*bytes.Buffer).ReadFrom":
+				whole = whole || len(e.Args) == 2 && e.Args[1] == gz
+			}
+		}
+		if !whole {
+			bad++
+			c.Bad(rule, name+"/whole-stream", "a snapshot is accepted on a path that did not read the gzip reader itself to its end (io.Copy / io.ReadAll / ReadFrom with the gzip reader as the source): a wrapped or bounded source that stops early without an error truncates the protobuf, and a cut on a field boundary silently drops the trailing DBIs", c.pathPos(p), describe(c, p))
+		}
+	}
+	if bad == 0 {
+		c.Ok(rule, name+"/whole-stream", fmt.Sprintf("all %d accepting paths collect the decompressed bytes from the gzip reader itself until it reports the end", n), c.P.Pos(fn.Pos()))
+	}
+	c.Floor(rule, n, 1, "accepting paths of LoadData")
+}
